@@ -18,7 +18,7 @@ func (w *world) assumeCounterWellFormed(src, dst string) {
 
 // VerifC04Send: one SendPacket from an arbitrary store.
 func VerifC04Send() {
-	w := newWorld(2)
+	w := newWorld(2 + rt.Tier())
 	var p types.Packet
 	rt.Fresh(&p, "packet")
 	w.assumeCounterWellFormed(p.SrcChain, p.DstChain)
@@ -74,7 +74,7 @@ func VerifC04TwoSends() {
 // transaction if any of them fails; logs of other addresses or other events cause nothing.
 func VerifC04Hook() {
 	w := newWorld(1)
-	n := rt.IntRange("nlogs", 0, 2)
+	n := rt.IntRange("nlogs", 0, 2+rt.Tier())
 	receipt := &ethtypes.Receipt{}
 	fromContract := make([]bool, n)
 	for i := 0; i < n; i++ {
@@ -129,5 +129,28 @@ func VerifC04Hook() {
 		rt.Reach("hook-ok")
 		// every commitment written belongs to one successful send: writes come in pairs (counter, commitment)
 		rt.Assert("S2-writes-paired", rt.StoreWrites(w.ctx, "xibc") == 2*len(w.evm.calls))
+	}
+}
+
+// VerifC04ChainInitiatedCall: a send nested in an EVM call the chain itself makes (receive callback, acknowledgement
+// callback) is turned into a commitment by the post-transaction hooks that CallEVMWithData runs by hand. ApplyMessage has
+// already committed the EVM half into the context by then, so a failing hook (a rejected send) must surface as an error of
+// the call - the only thing that makes the caller drop that context; and hooks never run for a failed execution.
+func VerifC04ChainInitiatedCall() {
+	w := newWorld(1)
+	to := common.BytesToAddress(rt.BytesN("contract", 20))
+	res, err := w.k.CallEVMWithData(w.ctx, common.BytesToAddress(rt.BytesN("from", 20)), &to, rt.Bytes("calldata"))
+	rt.Reach("returned")
+	if w.evm.hookFails > 0 {
+		rt.Reach("post-processing-failed")
+		rt.Assert("S6-failed-post-processing-fails-the-call", err != nil && res == nil)
+	}
+	if w.evm.failures > 0 {
+		rt.Reach("execution-failed")
+		rt.Assert("S6-failed-execution-fails-the-call-without-hooks", err != nil && w.evm.hookCalls == 0)
+	}
+	if err == nil {
+		rt.Reach("succeeded")
+		rt.Assert("S6-success-ran-the-hooks-once", w.evm.hookCalls == 1 && w.evm.hookFails == 0 && w.evm.failures == 0)
 	}
 }
